@@ -1,3 +1,4 @@
+import Mdsort.Proofs.Opts
 import Mdsort.Proofs.World
 import Mdsort.Proofs.WorldDryStdin
 import Mdsort.Proofs.WorldStdinExample
@@ -32,6 +33,133 @@ theorem C05_syntax_nothing (env : PEnv) (orc : EvalOracles) (ok : Bool) (conf : 
     Proofs.callsOf plan (mainP env orc ok conf files input) w = [.fopen env.confpath] ∨
     ∃ h, Proofs.callsOf plan (mainP env orc ok conf files input) w = [.fopen env.confpath, .fclose h] :=
   Proofs.syntax_only_calls env orc ok conf files input w plan hn
+
+/-! ## The command line (package ce13): which mode a run is in
+
+`Model.parseArgs` (Model/Opts.lean) transcribes the `getopt(argc, argv, "D:df:nv")` loop of `main` and the operand test
+(glibc's `getopt`: it permutes unless `POSIXLY_CORRECT` is set - `permute`); `Model.mainArgs` is the whole program from
+`argv[1..]`, the raw environment and the text of the configuration file.  `Spec.cmdline` (Spec/Cmdline.lean) is the
+command line as mdsort(1) documents it: option words `-dnv...`, `-f file`, `-D name=value` (joined or separate, in
+any order, clustered), then `-` or nothing. -/
+
+/-- For EVERY documented command line - any number of well-formed option words in any order, then `-` or nothing, with
+or without `--` before the operand, under both orderings of `getopt` - `parseArgs` computes the documented meaning.
+In particular (third part) the run is a syntax check iff SOME word holds an `n`, a dry run iff some word holds a `d`,
+in stdin mode iff `-` was given, and the macros are the `-D` words in order. -/
+theorem C05_options_select_mode (permute : Bool) (items : List Spec.CmdItem) (hwf : ∀ it ∈ items, it.wf = true) (stdin : Bool) :
+    parseArgs permute (Spec.renderCmd items ++ (if stdin then [[45]] else [])) = Spec.cmdline items stdin ∧
+    parseArgs permute (Spec.renderCmd items ++ dashdash :: (if stdin then [[45]] else [])) = Spec.cmdline items stdin ∧
+    ∀ o, Spec.cmdline items stdin = .ok o →
+      o.syntaxOnly = (items.any fun it => it.letters.contains 110) ∧
+      o.dryrun = (items.any fun it => it.letters.contains 100) ∧
+      o.stdinMode = stdin ∧ o.defs = items.filterMap Spec.CmdItem.defineOf := by
+  refine ⟨Proofs.Opts.parseArgs_cmdline permute items hwf stdin, ?_, ?_⟩
+  · rw [Proofs.Opts.parseArgs_words_dashdash permute items hwf]
+    unfold Spec.cmdline
+    cases Spec.cmdMeaning items {} with
+    | error e => rfl
+    | ok o => cases stdin <;> simp [operandStep]
+  · intro o h
+    unfold Spec.cmdline at h
+    cases hm : Spec.cmdMeaning items {} with
+    | error e => rw [hm] at h; cases h
+    | ok o1 =>
+      rw [hm] at h
+      simp only [Except.ok.injEq] at h
+      subst h
+      obtain ⟨a1, a2, a3, a4⟩ := Proofs.Opts.cmdMeaning_fields items {} o1 hm
+      obtain ⟨d1, d2, d3, d4, _⟩ := Proofs.Opts.dryVerbosity_fields (if stdin = true then { o1 with stdinMode := true } else o1)
+      rw [d1, d2, d3, d4]
+      cases stdin
+      · simp only [Bool.false_eq_true, if_false]
+        exact ⟨by rw [a1]; rfl, by rw [a2]; rfl, by rw [a3], by rw [a4]; rfl⟩
+      · simp only [if_true]
+        exact ⟨by rw [a1]; rfl, by rw [a2]; rfl, trivial, by rw [a4]; rfl⟩
+
+/-- Non-vacuity and the shapes the generators use: `-n` last, first, clustered, after the operand (permuted), `-f`
+joined and separate, the last `-f` wins, `-d` makes the run verbose. -/
+example :
+    (parseArgs true ["-f".toUTF8.toList, "c".toUTF8.toList, "-n".toUTF8.toList]).toOption.map (·.syntaxOnly) = some true ∧
+    (parseArgs true ["-vnd".toUTF8.toList, "-fc".toUTF8.toList]).toOption.map (fun o => (o.syntaxOnly, o.dryrun, o.verbosity, o.confpath)) =
+      some (true, true, 1, some "c".toUTF8.toList) ∧
+    (parseArgs true ["-".toUTF8.toList, "-n".toUTF8.toList]).toOption.map (fun o => (o.syntaxOnly, o.stdinMode)) = some (true, true) ∧
+    parseArgs false ["-".toUTF8.toList, "-n".toUTF8.toList] = .error .usage := by
+  decide +kernel
+
+example :
+    (parseArgs true ["-f".toUTF8.toList, "a".toUTF8.toList, "-f".toUTF8.toList, "b".toUTF8.toList]).toOption.map (·.confpath) =
+      some (some "b".toUTF8.toList) ∧
+    (parseArgs true ["-d".toUTF8.toList]).toOption.map (·.verbosity) = some 1 ∧
+    (parseArgs true ["-dvv".toUTF8.toList]).toOption.map (·.verbosity) = some 2 ∧
+    (parseArgs true []).toOption.map (fun o => (o.syntaxOnly, o.dryrun, o.stdinMode, o.confpath.isNone, o.verbosity)) =
+      some (false, false, false, true, 0) := by
+  decide +kernel
+
+/-- glibc's permutation as a theorem: operands (non-options) standing BETWEEN option words do not end the options - the
+words after them count as if they stood before (`mdsort - -n` is a syntax check of stdin mode).  With `POSIXLY_CORRECT`
+the first non-option ends the options and everything after it is an operand (`mdsort - -n`: two operands, usage). -/
+theorem C05_options_after_operand (items1 items2 : List Spec.CmdItem) (h1 : ∀ it ∈ items1, it.wf = true)
+    (h2 : ∀ it ∈ items2, it.wf = true) (ops : List Bytes) (hops : ops.all isNonOption = true) :
+    parseArgs true (Spec.renderCmd items1 ++ ops ++ Spec.renderCmd items2) = parseArgs true (Spec.renderCmd (items1 ++ items2) ++ ops) ∧
+    ∀ a rest, isNonOption a = true →
+      parseArgs false (Spec.renderCmd items1 ++ a :: rest) =
+        match Spec.cmdMeaning items1 {} with
+        | .error e => .error e
+        | .ok o =>
+          match operandStep o (a :: rest) with
+          | .error e => .error e
+          | .ok o' => .ok (dryVerbosity o') :=
+  ⟨Proofs.Opts.parseArgs_permuted items1 items2 h1 h2 ops hops,
+   fun a rest ha => Proofs.Opts.parseArgs_posix_stops items1 h1 a ha rest⟩
+
+/-- `-n` on the command line, anywhere `parseArgs` accepts it: whatever the environment, the configuration text, the
+maildirs and the fault plan, the run ends with status 1 before any call (`readenv` / `defaultconf` give up), or it opens
+the configuration file - the `-f` argument, else `$HOME/.mdsort.conf` - closes it, and issues no other call: no maildir,
+no message, no process (`C05_syntax_nothing` for the run from `argv`). -/
+theorem C05_args_syntax_nothing (permute : Bool) (args : List Bytes) (raw : RawEnv) (env : PEnv) (orc : EvalOracles)
+    (rxOk : Pat → Bool) (confText : Bytes) (files : Files) (input : Bytes) (w : World) (plan : Plan) (o : Opts)
+    (h : parseArgs permute args = .ok o) (hn : o.syntaxOnly = true) :
+    Proofs.callsOf plan (mainArgs permute args raw env orc rxOk confText files input) w = [] ∨
+    ∃ home tmpdir confpath, startPaths raw o.confpath = .ok (home, tmpdir, confpath) ∧
+      (Proofs.callsOf plan (mainArgs permute args raw env orc rxOk confText files input) w = [.fopen confpath] ∨
+       ∃ hd, Proofs.callsOf plan (mainArgs permute args raw env orc rxOk confText files input) w = [.fopen confpath, .fclose hd]) := by
+  rcases Proofs.Opts.mainArgs_accepted permute args raw env orc rxOk confText files input o h with h1 | ⟨home, tmpdir, confpath, ok, conf, hs, h2⟩
+  · left
+    rw [h1]; exact (Proofs.Opts.ret_run plan _ w).2
+  · right
+    refine ⟨home, tmpdir, confpath, hs, ?_⟩
+    rw [h2]
+    exact C05_syntax_nothing (Proofs.Opts.runEnv env o home tmpdir confpath) orc ok conf files input w plan hn
+
+/-- `-d` on the command line (without `-`): no call of the run changes anything or starts a process
+(`C05_dry_no_mutation` for the run from `argv`). -/
+theorem C05_args_dry_no_mutation (permute : Bool) (args : List Bytes) (raw : RawEnv) (env : PEnv) (orc : EvalOracles)
+    (rxOk : Pat → Bool) (confText : Bytes) (files : Files) (input : Bytes) (w : World) (plan : Plan) (o : Opts)
+    (h : parseArgs permute args = .ok o) (hd : o.dryrun = true) (hm : o.stdinMode = false) :
+    ∀ c ∈ Proofs.callsOf plan (mainArgs permute args raw env orc rxOk confText files input) w, c.mutating = false ∧ c ≠ .fork := by
+  rcases Proofs.Opts.mainArgs_accepted permute args raw env orc rxOk confText files input o h with h1 | ⟨home, tmpdir, confpath, ok, conf, _, h2⟩
+  · rw [h1, (Proofs.Opts.ret_run plan _ w).2]; intro c hc; cases hc
+  · rw [h2]
+    exact C05_dry_no_mutation (Proofs.Opts.runEnv env o home tmpdir confpath) orc ok conf files input w plan hd hm
+
+/-- `-v` changes nothing but stderr: two command lines whose accepted options differ in the verbosity only are the same
+program (the correspondence compares the final trees and exit statuses of runs with and without `-v`). -/
+theorem C05_verbose_same_run (p1 p2 : Bool) (args1 args2 : List Bytes) (o1 o2 : Opts) (h1 : parseArgs p1 args1 = .ok o1)
+    (h2 : parseArgs p2 args2 = .ok o2) (heq : { o1 with verbosity := 0 } = { o2 with verbosity := 0 })
+    (raw : RawEnv) (env : PEnv) (orc : EvalOracles) (rxOk : Pat → Bool) (confText : Bytes) (files : Files) (input : Bytes) :
+    mainArgs p1 args1 raw env orc rxOk confText files input = mainArgs p2 args2 raw env orc rxOk confText files input := by
+  have e : o1.dryrun = o2.dryrun ∧ o1.syntaxOnly = o2.syntaxOnly ∧ o1.stdinMode = o2.stdinMode ∧ o1.confpath = o2.confpath ∧
+      o1.defs = o2.defs := by
+    cases o1; cases o2
+    simp only [Opts.mk.injEq] at heq
+    exact ⟨heq.1, heq.2.1, heq.2.2.1, heq.2.2.2.1, heq.2.2.2.2.1⟩
+  simp only [mainArgs, h1, h2, e.1, e.2.1, e.2.2.1, e.2.2.2.1, e.2.2.2.2]
+
+example :
+    (match parseArgs true ["-vvn".toUTF8.toList], parseArgs true ["-n".toUTF8.toList] with
+     | .ok o1, .ok o2 => decide ({ o1 with verbosity := 0 } = { o2 with verbosity := 0 }) && o1.verbosity == 2
+     | _, _ => false) = true := by
+  decide +kernel
 
 /-! ## dry run in stdin mode (`-d -`)
 
